@@ -18,6 +18,8 @@ EXPLANATION = (
     "delimiter once after the document and validates UTF-8 (String::from_utf8(..)?); that escaped text cannot contain ']]>' follows "
     "from quick-xml 0.31 escaping '>' (assumption). Not decided: well-formedness of caller-supplied fragments."
 )
+RAW_VIEW = ("str::as_bytes", "String::as_bytes", "String::as_str", "Deref::deref", "AsRef::as_ref", "Borrow::borrow", "Arc::deref", "Arc::as_ref", "Opaque::as_bytes",
+            "Opaque::as_str", "Opaque::as_ref", "Into::into", "From::from", "Clone::clone", "Cow::as_ref")
 RAW_ALLOWED = {
     "<netconf::message::rpc::operation::Source as netconf::message::WriteXml>::write_xml": "Source::Config: documented verbatim XML fragment",
     "<netconf::message::rpc::operation::Filter as netconf::message::WriteXml>::write_xml": "Filter::Subtree: documented verbatim XML fragment",
@@ -32,6 +34,7 @@ def run(ctx):
     chk, fx = ctx.chk, ctx.facts
     chk.explanation = EXPLANATION
     r4_values_stored_unchanged(chk, fx)
+    r5_setters_store_unchanged(chk, fx)
     chk.assumptions += ["quick-xml 0.31: BytesText::new and Attribute::from((&str,&str)) escape < > & ' \"; Attribute::from((&[u8],&[u8])) and Attribute{..} store the value verbatim"]
     impls = [i for i in fx.item_list if i["kind"] == "Impl" and i.get("trait") == "netconf::message::WriteXml" and "::tests::" not in i["qdef"] and "tests::" not in i.get("self", "")]
     chk.floor("C10 WriteXml impls", len(impls), 30)
@@ -67,6 +70,13 @@ def run(ctx):
                 chk.instance("C10/R2", "raw write into the XML writer%s" % (" — audited: " + why if why else ""), name, c.loc(), holds=why is not None,
                              key="C10/R2 raw-write in %s" % T.strip_generics(root),
                              detail=None if why else "caller data copied verbatim: '<', '&' or ']]>]]>' in the value corrupt the message")
+                if why is not None and len(c.args) > 1 and F.op_base(c.args[1]) is not None:
+                    # "verbatim" cuts both ways: what an audited site writes is the caller's fragment itself, not an edited copy of it
+                    org = b.backward_origins(F.op_base(c.args[1]), through_call=lambda x: T.short(T.strip_generics(x.name()), 2) in RAW_VIEW or x.is_fn(*RAW_VIEW))
+                    edited = sorted({T.short(T.strip_generics(o["call"].name()), 2) for o in org if o["k"] == "call" and o["call"] is not None})
+                    chk.instance("C10/R2", "the audited raw site writes the caller's fragment itself", name, c.loc(), holds=not edited,
+                                 key="C10/R2 raw-write rewrites-the-fragment in %s" % T.strip_generics(root),
+                                 detail=None if not edited else "the bytes written come from %s: a documented verbatim fragment (a CDATA section, say) reaches the server altered" % edited)
             elif c.is_fn("BytesText::<'a>::from_escaped", "Writer::<W>::write_event", "Writer::<W>::write_indent", "BytesCData::<'a>::new", "Writer::<W>::write_bom"):
                 n_raw += 1
                 chk.instance("C10/R2", "%s bypasses escaping" % T.short(c.name(), 2), name, c.loc(), holds=False,
@@ -402,3 +412,54 @@ def r4_values_stored_unchanged(chk, fx):
             chk.instance("C10/R4", "Url::try_new stores the string it was given (%s)" % (" <- ".join(chain) or "as is"), name, loc_of(fx.thir[name].get("sp")), holds=ok,
                          key="C10/R4 Url::try_new stores-a-rewritten-value", detail=None if ok else "the <url> sent is %s of the caller's URL" % (foreign or [A.vstr(x)[:40]]))
     chk.floor("C10/R4 Ok paths of Url::try_new", n, 1)
+
+
+# ---------------------------------------------------------------------------------------------
+VALUE_PARAM_TYPES = ("std::string::String", "&str", "&'", "std::option::Option<netconf::message::rpc::operation::Token>", "netconf::message::rpc::operation::Token",
+                     "std::option::Option<netconf::message::rpc::operation::Filter>", "netconf::message::rpc::operation::Filter", "std::option::Option<S>")
+
+
+def r5_setters_store_unchanged(chk, fx):
+    """The same for every public setter of an operation builder: where the value a caller hands in shows up in what the setter returns,
+    it got there through constructors and representation-preserving conversions only.  A setter that filters, trims, folds or
+    re-encodes its argument ("sanitising" a log message, normalising a token) sends something else than what the caller said.
+    Decided on the explored paths of each setter; a parameter that does not show up in the result (stored through a helper the
+    interpreter does not follow) is not decided here — the count of decided parameters is reported and floored."""
+    from vlib import absint as A
+    names = sorted(it["qdef"] for it in fx.item_list if it.get("kind") == "AssocFn" and it.get("crate") == "netconf" and "::operation::" in it["qdef"]
+                   and "Builder" in it["qdef"] and " as " not in it["qdef"] and str(it.get("vis", "")).startswith("Public") and it["qdef"] in fx.thir)
+    decided = 0
+    for n in names:
+        it = fx.fn_item(n)
+        params = it.get("params") or []
+        inputs = it.get("inputs") or []
+        if len(params) != len(inputs) or len(params) < 2:
+            continue
+        cand = [pn for pn, ty in zip(params[1:], inputs[1:]) if pn and (ty in ("S", "M", "D", "T") or ty.startswith(VALUE_PARAM_TYPES))]
+        if not cand:
+            continue
+        try:
+            paths = [p for p in A.Interp(fx, crates=("netconf",), max_paths=400).explore(n) if p.end != "abort" and p.ret is not None]
+        except A.Undecided:
+            continue
+        for pn in cand:
+            sym = ("sym", "param:%s" % pn)
+            seen, foreign = False, []
+            for p in paths:
+                if A.is_res(p.ret) and p.ret[2] == "Err":
+                    continue
+                for x in A.walk_value(p.ret):
+                    if x[0] == "term" and A.mentions(x, lambda y: y == sym):
+                        seen = True
+                        f = T.short(x[1], 2)
+                        if f not in PRESERVING_CONV and f not in ("RiStr::new", "Url::try_new", "elem") and not f.endswith(("::try_use", "::try_new")):
+                            foreign.append(f)
+                    elif x == sym:
+                        seen = True
+            if not seen:
+                continue
+            decided += 1
+            chk.instance("C10/R5", "%s stores `%s` as given" % (T.short(n, 3), pn), n, loc_of(fx.thir[n].get("sp")), holds=not foreign,
+                         key="C10/R5 %s stores-a-rewritten-value %s" % (T.short(T.strip_generics(n), 3), pn),
+                         detail=None if not foreign else "what is sent is %s of the caller's value" % sorted(set(foreign))[:4])
+    chk.floor("C10/R5 setter parameters decided", decided, 6)
